@@ -365,6 +365,11 @@ func (m *Machine) jsonEncode(t types.Type, v Value, depth int) Value {
 		if p == nil {
 			return gtNull()
 		}
+		if _, isOpaque := (*p).(*Opaque); isOpaque {
+			// an engine-modelled library object (file, connection): encoding/json would emit its exported
+			// fields; what matters to the checks is that it is a non-null object
+			return gtObj(&MapV{})
+		}
 		return m.jsonEncode(u.Elem(), *p, depth+1)
 	case *types.Struct:
 		s := v.(Struct)
@@ -500,6 +505,7 @@ func (d *decState) natural(gt Value) Value {
 
 func (d *decState) decode(gt Value, t types.Type, dst *Value) {
 	m := d.m
+	m.touch(dst)
 	kind := gtKind(gt)
 	if _, isIface := t.Underlying().(*types.Interface); !isIface {
 		if m.hasMethod(types.NewPointer(t), "UnmarshalJSON") || m.hasMethod(types.NewPointer(t), "UnmarshalText") {
